@@ -799,7 +799,7 @@ func defaultMatches(mod *core.Module, g *genType, ifs *ast.IfStmt, manifestDefau
 	var decoded *string
 	ast.Inspect(ifs.Body, func(n ast.Node) bool {
 		if call, ok := n.(*ast.CallExpr); ok {
-			if cf := core.Callee(inf, call); cf != nil && strings.HasPrefix(cf.Name(), "NewJsonReader") && len(call.Args) >= 1 {
+			if cf := core.Callee(inf, call); cf != nil && strings.HasPrefix(core.NameOf(cf), "NewJsonReader") && len(call.Args) >= 1 {
 				if conv, ok := core.Unparen(call.Args[0]).(*ast.CallExpr); ok && len(conv.Args) == 1 {
 					if cv := core.ConstOf(inf, conv.Args[0]); cv != nil && cv.Kind() == constant.String {
 						s := constant.StringVal(cv)
@@ -927,7 +927,7 @@ func defaultMatches(mod *core.Module, g *genType, ifs *ast.IfStmt, manifestDefau
 			case *ast.SelectorExpr:
 				k, _ = inf.Uses[x.Sel].(*types.Const)
 			}
-			if k != nil && (strings.HasSuffix(k.Name(), "_"+w) || enumSymbolOf(mod, k) == w) {
+			if k != nil && (strings.HasSuffix(core.NameOf(k), "_"+w) || enumSymbolOf(mod, k) == w) {
 				found = true
 			}
 			return true
@@ -1180,7 +1180,7 @@ func runR133(c *core.Ctx) {
 		ast.Inspect(fd.Body, func(n ast.Node) bool {
 			if id, ok := n.(*ast.Ident); ok {
 				if v, ok := inf.Uses[id].(*types.Var); ok && !v.IsField() && v.Pkg() != nil && v.Parent() == v.Pkg().Scope() {
-					shared = append(shared, v.Pkg().Name()+"."+v.Name())
+					shared = append(shared, v.Pkg().Name()+"."+core.NameOf(v))
 				}
 			}
 			return true
@@ -1511,7 +1511,7 @@ func runR113(c *core.Ctx) {
 						errPos = x.Pos()
 					}
 				case *ast.CallExpr:
-					if cf := core.Callee(inf, x); cf != nil && strings.HasPrefix(cf.Name(), "Write") && writePos == 0 {
+					if cf := core.Callee(inf, x); cf != nil && strings.HasPrefix(core.NameOf(cf), "Write") && writePos == 0 {
 						writePos = x.Pos()
 					}
 				}
@@ -1523,21 +1523,50 @@ func runR113(c *core.Ctx) {
 		} else {
 			problems = append(problems, "MarshalRestLi missing")
 		}
-		// unmarshal assigns the lookup
-		if um := g.Methods["UnmarshalRestLi"]; um != nil {
-			okAssign := false
+		// unmarshal assigns the lookup, on every path to a success return: the zero value of the table is the unknown constant
+		if um := g.Methods["UnmarshalRestLi"]; um != nil && um.Recv != nil && len(um.Recv.List) == 1 && len(um.Recv.List[0].Names) == 1 {
+			recv := inf.Defs[um.Recv.List[0].Names[0]]
+			isLookup := func(e ast.Expr) bool {
+				if ix, ok := core.Unparen(e).(*ast.IndexExpr); ok {
+					if id, ok := core.Unparen(ix.X).(*ast.Ident); ok && id.Name == "_"+g.Name+"_values" {
+						return true
+					}
+				}
+				return false
+			}
+			// locals that hold the (comma-ok) lookup
+			holds := map[types.Object]bool{}
 			ast.Inspect(um.Body, func(n ast.Node) bool {
-				if as, ok := n.(*ast.AssignStmt); ok && len(as.Rhs) == 1 {
-					if ix, ok := core.Unparen(as.Rhs[0]).(*ast.IndexExpr); ok {
-						if id, ok := core.Unparen(ix.X).(*ast.Ident); ok && id.Name == "_"+g.Name+"_values" {
-							okAssign = true
-						}
+				if as, ok := n.(*ast.AssignStmt); ok && len(as.Rhs) == 1 && isLookup(as.Rhs[0]) {
+					if o := core.ObjOf(inf, as.Lhs[0]); o != nil {
+						holds[o] = true
 					}
 				}
 				return true
 			})
-			if !okAssign {
-				problems = append(problems, "UnmarshalRestLi does not assign the _values lookup (unknown symbols must become the zero/unknown constant)")
+			par := core.Parents(um)
+			sig, _ := inf.Defs[um.Name].Type().(*types.Signature)
+			unassigned := reachWithout(c, inf, um.Body, core.MainErrorVar(inf, um),
+				func(n ast.Node) bool {
+					as, ok := n.(*ast.AssignStmt)
+					if !ok || len(as.Lhs) != len(as.Rhs) {
+						return false
+					}
+					for i, l := range as.Lhs {
+						if st, ok := core.Unparen(l).(*ast.StarExpr); ok && core.ObjOf(inf, st.X) == recv {
+							if isLookup(as.Rhs[i]) || holds[core.ObjOf(inf, as.Rhs[i])] {
+								return true
+							}
+						}
+					}
+					return false
+				},
+				func(n ast.Node) bool {
+					r, ok := n.(*ast.ReturnStmt)
+					return ok && core.ErrorReturn(inf, par, sig, r) != "error"
+				})
+			if len(unassigned) > 0 {
+				problems = append(problems, "UnmarshalRestLi can succeed without assigning the _values lookup to the receiver (unknown symbols must become the zero/unknown constant, not keep the previous value)")
 			}
 		} else {
 			problems = append(problems, "UnmarshalRestLi missing")
@@ -1683,7 +1712,7 @@ func enumSymbolOf(mod *core.Module, k *types.Const) string {
 	if p == nil {
 		return ""
 	}
-	tab := p.Types.Scope().Lookup("_" + named.Obj().Name() + "_strings")
+	tab := p.Types.Scope().Lookup("_" + core.NameOf(named.Obj()) + "_strings")
 	if tab == nil {
 		return ""
 	}
